@@ -37,8 +37,18 @@ class Observer:
         ctx = self.ctx
         sn = koracles.Snapshot(run.wf)
         ctx.stats.count("oracle-states-checked")
+        running_before = getattr(self, "running", {})
+        self.running = {n[1]: dict(sn.resources.get(i, {})) for i, n in sn.nodes.items()
+                        if n[0] == "step" and i in sn.steps and sn.steps[i]["state"] == StepState.RUNNING.value}
+        # F7 (known finding): `define` recycles a detached step whose command is still running and
+        # gives it other resources; the row-level sums then count what the new definition requires
+        recycled = {l for l, res in self.running.items() if op == "define" and l in running_before
+                    and running_before[l] != res}
+        self.f7 = getattr(self, "f7", set()) | recycled
+        self.f7 &= set(self.running)
         for b in koracles.resource_invariants(sn)[:2]:
-            ctx.finding(Finding(PID, "resources-overcommitted" if "hold" in b else "undefined-resource-running",
+            suffix = ":running-step-recycled-with-other-resources" if self.f7 else ""
+            ctx.finding(Finding(PID, ("resources-overcommitted" if "hold" in b else "undefined-resource-running") + suffix,
                                 f"after '{kcorr.decode_line(line)[:100]}': {b}",
                                 {"violation": b, "requests": [kcorr.decode_line(x) for x in run.lines][-15:],
                                  "protocol_lines": list(run.lines)}))
